@@ -250,7 +250,14 @@ XRefTaken ==
 \* must be safe); a finished one is reused (unless tainted); and a key is present as an unfinished PLACEHOLDER as
 \* soon as something below it has been evaluated - made for `a: {b: 1, c: !eval a.b}`.  A placeholder that the code
 \* hands back as its value is evaluated properly (eval.py; mutation EvalLeaksPlaceholder: the code before that fix).
-IsEvalName(n) == n.k = "eval" /\ n.ref # <<>>
+\* (the same lookup serves an f-string whose body is one replacement field `{name}`: its value is the TEXT of the entry - a new
+\*  string, not the entry itself)
+IsEvalName(n) == n.k \in {"eval", "fstr"} /\ n.ref # <<>>
+StrOfAtom(a) == CASE a[1] = "n" -> "None" [] a[1] = "b" -> (IF a[2] = "T" THEN "True" ELSE "False") [] OTHER -> a[2]
+\* what the node yields for the value with heap id `id`: the id itself (!eval) / a fresh string (f-string; the text of a
+\* container or object is not modelled: "?")
+NameValue(n, id) == IF n.k = "eval" THEN <<"same", id>>
+                    ELSE <<"new", VAtom(Atom("s", IF heap[id].k = "atom" THEN StrOfAtom(heap[id].v) ELSE "?"))>>
 IsBelow(q, tp) == Len(q) > Len(tp) /\ SubSeq(q, 1, Len(tp)) = tp
 HasPlaceholder(tp) == /\ ~Cached(tp)
                       /\ \/ \E q \in DOMAIN cache : IsBelow(q, tp)
@@ -264,12 +271,15 @@ EvalNameLookup ==
        ELSE IF ~HasPath(work, tp) THEN Fail("EvalError")                      \* NameError in the user code
        ELSE IF Cached(tp)
        THEN IF Tainted(tp) THEN Fail("UnsafeError")                          \* _reuse_evaluated under require_all_safe
-            ELSE /\ cache' = PutCache(Top.p, cache[tp])
+            ELSE LET nv == NameValue(TopNode, cache[tp])
+                     id == IF nv[1] = "same" THEN nv[2] ELSE NewId IN
+                 /\ heap' = IF nv[1] = "same" THEN heap ELSE Append(heap, nv[2])
+                 /\ cache' = PutCache(Top.p, id)
                  /\ taint' = IF TopTainted THEN taint \cup {Top.p} ELSE taint
                  /\ LET st1 == Pop IN
                     IF st1 = <<>> THEN stack' = st1 /\ status' = "done"
-                    ELSE status' = status /\ stack' = Return(st1, cache[tp], TopTainted)
-                 /\ UNCHANGED <<work, heap, calls, evlog, reqsafe>>
+                    ELSE status' = status /\ stack' = Return(st1, id, TopTainted)
+                 /\ UNCHANGED <<work, calls, evlog, reqsafe>>
        ELSE IF HasPlaceholder(tp) /\ Mut("EvalLeaksPlaceholder")
        THEN Finish(VPlaceholder, <<>>) /\ UNCHANGED reqsafe
        ELSE \* evaluate_node(<the node of that name>, [name]) under require_all_safe: by PartialChild.__getitem__ when the key
@@ -285,14 +295,16 @@ EvalNameLookup ==
 \* the value arrived: the node evaluates to that very object
 EvalNameTaken ==
     /\ Running /\ IsEvalName(TopNode) /\ Top.ids # <<>>
-    /\ LET id == Top.ids[1] IN
+    /\ LET nv == NameValue(TopNode, Top.ids[1])
+           id == IF nv[1] = "same" THEN nv[2] ELSE NewId IN
+       /\ heap' = IF nv[1] = "same" THEN heap ELSE Append(heap, nv[2])
        /\ cache' = PutCache(Top.p, id)
        /\ reqsafe' = Top.rs
        /\ taint' = IF TopTainted THEN taint \cup {Top.p} ELSE taint
        /\ LET st1 == Pop IN
           IF st1 = <<>> THEN stack' = st1 /\ status' = "done"
           ELSE status' = status /\ stack' = Return(st1, id, TopTainted)
-    /\ UNCHANGED <<work, heap, calls, evlog>>
+    /\ UNCHANGED <<work, calls, evlog>>
 
 \* ---- other dynamic leaves (other !eval code, f-strings, !import, !path): opaque here ------
 \* they gate on their own safety and produce an object (C12 refines them)
